@@ -88,6 +88,9 @@ type Trace struct {
 	// Probes: outcome quadruples (write at old leader / read at new leader / write at new
 	// leader / read at cut-off old leader) of the executed stale-read probes.
 	Probes []string `json:"probes,omitempty"`
+	// ProbeBacklogs: probes whose read at the fresh leader was issued while that store had
+	// applied fewer write commands than the cut-off leader had.
+	ProbeBacklogs int `json:"probe_backlogs,omitempty"`
 }
 
 // FlavorOf assigns the targeted "dup-transfer" pattern to every fifth case.
@@ -516,12 +519,29 @@ func Run(plan Plan, dir string, rng *rand.Rand, caughtUpWatchdog time.Duration) 
 						cl.SetApplyDelay(i, 15*time.Millisecond)
 					}
 				}
-				for _, tag := range []string{"old-a", "old-b", "old-c"} {
-					probeOps = append(probeOps, write(l, tag))
+				// the burst is proposed concurrently (clients of their own), so the leader
+				// replicates it in one or two appends and the followers hold several entries
+				// they have not been told are committed when the leader is cut off
+				burst := make([]Op, 4)
+				var bwg sync.WaitGroup
+				for bi := range burst {
+					bwg.Add(1)
+					go func(bi int) {
+						defer bwg.Done()
+						op := write(l, fmt.Sprintf("old-%c", 'a'+bi))
+						op.Client = pc + 1 + bi
+						burst[bi] = op
+					}(bi)
 				}
-				w0 := write(l, "old")
+				bwg.Wait()
+				w0 := burst[0]
+				for _, op := range burst {
+					if op.Outcome == "ok" {
+						w0 = op
+					}
+				}
 				cl.Isolate(l)
-				probeOps = append(probeOps, w0)
+				probeOps = append(probeOps, burst...)
 				nl := -1
 				for dl := time.Now().Add(3 * time.Second); nl < 0 && time.Now().Before(dl); {
 					for i := range cl.Nodes {
@@ -537,6 +557,11 @@ func Run(plan Plan, dir string, rng *rand.Rand, caughtUpWatchdog time.Duration) 
 					}
 				}
 				if nl >= 0 {
+					// how far behind the old leader is the fresh one when the read is issued?
+					backlog := cl.AppliedOn(l, reg) - cl.AppliedOn(nl, reg)
+					if backlog > 0 {
+						tr.ProbeBacklogs++
+					}
 					r1 := read(nl)
 					for i := range cl.Nodes {
 						cl.SetApplyDelay(i, 0)
